@@ -157,6 +157,37 @@ def run(R):
                 json.dump(found_support, f, indent=1, sort_keys=True)
         if baseline is None:
             R.undecided("C11a", "%s|baseline-missing" % cfg, "spec/interface_support.json is missing")
+        # the kind each built-in interface reports is the one its wiring has (the gates above key on it)
+        want_kind = {"mipidsi::interface::spi::SpiInterface": "Serial4Line",
+                     "mipidsi::interface::parallel::Generic8BitBus": "Parallel8Bit",
+                     "mipidsi::interface::parallel::Generic16BitBus": "Parallel16Bit"}
+        nk = 0
+        for tr in (C.IFACE, TR.BUS):
+            for impl in F.impls_by_trait.get(tr, []):
+                st_ = impl["self_ty"]
+                if impl["id"].startswith("mipidsi::_mock"):
+                    continue
+                kid = [it["id"] for it in impl["items"] if it["name"] == "KIND"]
+                if not kid or kid[0] not in F.consts:
+                    continue
+                exk = R.executor(F)
+                try:
+                    v = exk.eval_const_item(F.consts[kid[0]], {})
+                except E.Undecided as e_:
+                    v = None
+                nk += 1
+                if st_.get("k") == "adt" and st_["def"] in want_kind:
+                    got = C.variant_name(F, v) if isinstance(v, Agg) else None
+                    R.ob("C11a-interface-kind-constant", "%s|KIND|%s" % (cfg, st_["def"].split("::")[-1]), got == want_kind[st_["def"]],
+                         "%s reports interface kind %s, its wiring is %s" % (st_["def"].split("::")[-1], got, want_kind[st_["def"]]),
+                         sample={"interface": st_["def"].split("::")[-1], "kind": got})
+                else:
+                    # forwarding impls (ParallelInterface -> BUS::KIND, &mut T -> T::KIND): must be the inner type's constant
+                    inner = repr(v)
+                    ok = isinstance(v, SymV) and v.name.endswith("::KIND") and ("BUS" in v.name or "<T>" in v.name)
+                    R.ob("C11a-interface-kind-constant", "%s|KIND|%s" % (cfg, st_.get("s", "?")[:40]), ok,
+                         "%s::KIND evaluates to %s instead of forwarding the wrapped type's kind" % (st_.get("s"), inner))
+        R.floor("%s|KIND constants" % cfg, nk, 5)
         # Builder::init stores exactly the returned address mode
         ex = R.executor(F)
         res = R.run_entry(ex, C.builder_init(F))
